@@ -475,6 +475,9 @@ class SkelEval(Eval):
         return super().ev_path(t)
 
     def ev_lit(self, t):
+        if len(t) > 3 and t[3] in ('f32', 'f64', 'i32', 'u32', 'i64', 'u64'):
+            # a literal written with a type suffix is a value of that primitive type: interpolated into a template it prints like a payload
+            return Num(t[3], float(t[2]) if t[3].startswith('f') else int(t[2]))
         if t[1] == 'int':
             return int(t[2])
         return super().ev_lit(t)
